@@ -42,3 +42,55 @@ package filesystem
 //@   at call Storage.Link : assert arg[0] == filename && arg[1] == ret(getNewHistoricalFileName)[0]
 //@   at call Storage.Copy : assert arg[0] == filename && arg[1] == ret(getNewHistoricalFileName)[0]
 //@   at call getNewHistoricalFileName : assert arg[0] == filename
+
+// ---- Export / import of key bundles (C18), keystore v1 ----
+// The bundle is the output of the encryptor built from a freshly generated access key, over the serialized keys;
+// key material obtained from the key store is wiped only on the way out of Export (never before it is serialized).
+//@ func (store *KeyBackuper) Export(exportIDs []keystore.ExportID, mode keystore.ExportMode) (backup *keystore.KeysBackup, err error)
+//@   props C18
+//@   noinline *
+//@   ensures bundle-is-ciphertext: err == nil ==> backup != nil && sameslice(backup.Data, ret(SCellKeyEncryptor.Encrypt)[0]) && sameslice(backup.Keys, ret(keystore.GenerateSymmetricKey)[0])
+//@   ensures whole-or-nothing: err != nil ==> backup == nil
+//@   at call utils.ZeroizeBytes : assert exiting
+//@   at call keystore.NewSCellKeyEncryptor : assert sameslice(arg[0], ret(keystore.GenerateSymmetricKey)[0]) && ret(keystore.GenerateSymmetricKey)[1] == nil
+//@   at call SCellKeyEncryptor.Encrypt : assert recv == ret(keystore.NewSCellKeyEncryptor)[0] && called(gob.Encoder.Encode) && ret(gob.Encoder.Encode)[0] == nil
+//@   at call readFilesAsKeys#0 : assert typeis(arg[2], dummyEncryptor) && arg[1] == store.publicFolder
+//@   at call readFilesAsKeys#1 : assert arg[2] == store.currentDecryptor && arg[1] == store.privateFolder
+
+// A bundle that does not decrypt with the given access key, or does not decode, is rejected before anything is written;
+// private keys are written only as the output of the target's own key encryptor under the key's own context.
+//@ func (store *KeyBackuper) Import(backup *keystore.KeysBackup) (descs []keystore.KeyDescription, err error)
+//@   props C18
+//@   safety
+//@   ensures rejected-without-writing: ret(keystore.NewSCellKeyEncryptor)[1] != nil || (called(SCellKeyEncryptor.Decrypt) && ret(SCellKeyEncryptor.Decrypt)[1] != nil) || (called(gob.Decoder.Decode) && ret(gob.Decoder.Decode)[0] != nil) ==> err != nil && descs == nil && !called(Storage.WriteFile) && !called(Storage.MkdirAll)
+//@   ensures whole-or-nothing: err != nil ==> descs == nil
+//@   loop 0 step private-keys-reencrypted: itercalled(Storage.WriteFile) && ret(isPrivate)[0] ==> itercalled(KeyEncryptor.Encrypt) && ret(KeyEncryptor.Encrypt)[1] == nil && sameslice(argof(Storage.WriteFile)[1], ret(KeyEncryptor.Encrypt)[0])
+//@          step public-keys-as-is: itercalled(Storage.WriteFile) && !ret(isPrivate)[0] ==> sameslice(argof(Storage.WriteFile)[1], key.Content)
+//@   at call SCellKeyEncryptor.Decrypt : assert recv == ret(keystore.NewSCellKeyEncryptor)[0] && sameslice(arg[1], backup.Data)
+//@   at call keystore.NewSCellKeyEncryptor : assert sameslice(arg[0], backup.Keys)
+//@   at call KeyEncryptor.Encrypt : assert recv == store.currentDecryptor && sameslice(arg[1], key.Content) && arg[2] == ret(getContextFromFilename)[0]
+//@   at call getContextFromFilename : assert arg[0] == key.Name
+//@   at call isPrivate : assert arg[0] == key.Name
+//@   at call Storage.WriteFile : assert ret(SCellKeyEncryptor.Decrypt)[1] == nil && ret(gob.Decoder.Decode)[0] == nil
+
+// Keys read for a bundle: private files are decrypted with the source's encryptor under the context derived from their
+// own relative name, public files are taken as they are; any failure aborts the whole read.
+//@ func readFilesAsKeys(files []string, basePath string, encryptor keystore.KeyEncryptor, storage Storage) (out []*keystore.Key, err error)
+//@   props C18
+//@   safety
+//@   noinline *
+//@   ensures whole-or-nothing: err != nil ==> out == nil
+//@   ensures one-key-per-file: err == nil ==> len(out) == len(files)
+//@   loop 0 invariant len(output) == $n
+//@          step own-context: itercalled(KeyEncryptor.Decrypt) ==> argof(KeyEncryptor.Decrypt)[2] == ret(getContextFromFilename)[0] && sameslice(argof(KeyEncryptor.Decrypt)[1], ret(Storage.ReadFile)[0]) && argof(getContextFromFilename)[0] == argof(isPrivate)[0]
+//@          step private-iff-decrypted: ret(isPrivate)[0] <==> itercalled(KeyEncryptor.Decrypt)
+//@   at call Storage.ReadFile : assert arg[0] == f
+
+//@ func getContextFromFilename(fname string) (c keystore.KeyContext)
+//@   props C18 C07
+//@   safety
+
+//@ func isPrivate(fname string) (b bool)
+//@   props C18
+//@   safety
+//@   ensures poison-is-private: fname == PoisonKeyFilename && !ret(isHistoricalFilename)[0] ==> b
